@@ -8,6 +8,10 @@
 * canonicalisation rules: exceptions -> result classes, reply codes / faults -> request classes.
 
 Calls (tokens):  b begin_transaction · s0 / s1 send to partition 0 / 1 · o send_offsets_to_transaction
+                 (offsets map of 1, 2 or 3 partitions over two topics, all with the same offset)
+                 k create_batch() (kept for a later t0/t1) · t0 / t1 send_batch of one record to partition
+                 0 / 1, using the oldest batch made by k, else a fresh one (for the automaton: k = no
+                 effect, t0/t1 = s0/s1; a Produce without the transactional flag is rendered PN…, never PR…)
                  c commit_transaction · a abort_transaction · x transaction() context exit without
                  exception · e context exit with an exception · r kill the producer and start a new
                  instance with the same transactional id
@@ -23,6 +27,7 @@ import logging
 import sys
 
 TOPIC = "t"
+TOPIC2 = "u"             # second topic: only its partition 0 appears in offsets maps
 GROUP = "g"
 TXID = "tx"
 SETTLE = 20.0            # virtual seconds between calls: > request timeout + back-offs
@@ -43,6 +48,13 @@ RETRIABLE = {
 ABORTABLE = {"AP": [29], "AO": [30], "OC": [30]}
 FATAL = {"AP": [47, 49, 48, 53], "AO": [47, 48, 53], "OC": [47, 53], "ET": [47, 48, 53],
          "PR": [45, 47]}      # at a Produce: sequence violation / fencing (fails the batch only, see C16)
+
+
+def offsets_map(TP, size, off):
+    """the offsets map of the n-th send_offsets call: 1, 2 or 3 partitions, two topics, one offset value;
+    (TOPIC, 2) is always part of it (the automaton follows that one)"""
+    keys = [TP(TOPIC, 2), TP(TOPIC2, 0), TP(TOPIC, 1)][:size]
+    return {k: off for k in keys}
 
 
 def applicable(api, kind):
@@ -158,7 +170,7 @@ def canon_requests(env, trace, clients):
             elif api == "AO":
                 head = "AO"
             elif api == "OC":
-                offs = [pp["offset"] for t in f["topics"] for pp in t["partitions"]]
+                offs = sorted({pp["offset"] for t in f["topics"] for pp in t["partitions"]})
                 head = "OC" + "+".join(map(str, offs))
             elif api == "ET":
                 head = "ET" + ("c" if f["transaction_result"] else "a")
@@ -167,8 +179,9 @@ def canon_requests(env, trace, clients):
                 idxs = []
                 for pp in sorted(f["partitions"], key=lambda pp: pp["partition"]):
                     idxs.append(len(out))
-                    out.append([api, f"PR{pp['partition']}." + "+".join(r for r in pp["records"]), "noreply",
-                                pp["partition"]])
+                    # PR = carries the transactional flag, PN = a plain (idempotent only) batch
+                    out.append([api, ("PR" if pp["is_txn"] else "PN") + f"{pp['partition']}." +
+                                "+".join(r for r in pp["records"]), "noreply", pp["partition"]])
                 pend[(e["client"], e["conn"], e["corr"])] = idxs
                 continue
             pend[(e["client"], e["conn"], e["corr"])] = [len(out)]
@@ -226,7 +239,7 @@ def rc_view(cluster, part):
     return vis, opn, allr
 
 
-async def api_case(env, cluster, calls, record):
+async def api_case(env, cluster, calls, record, ovar=0):
     """run the call sequence; `record` collects results / futures"""
     AIOKafkaProducer = env.aiokafka.AIOKafkaProducer
     TP = env.structs.TopicPartition
@@ -243,6 +256,8 @@ async def api_case(env, cluster, calls, record):
     p = await start()
     nrec = 0
     noff = 0
+    nocall = 0
+    pool = []            # batch builders made by `k`, oldest first (they survive restarts of the producer: plain objects)
     futs = {}
 
     def watch(rid, fut):
@@ -270,11 +285,28 @@ async def api_case(env, cluster, calls, record):
                         raise
                     futs[rid] = "pending"
                     watch(rid, fut)
+                elif call == "k":
+                    pool.append(p.create_batch())
+                elif call in ("t0", "t1"):
+                    rid = nrec
+                    nrec += 1
+                    builder = pool.pop(0) if pool else p.create_batch()
+                    if builder.append(key=None, value=b"r%d" % rid, timestamp=now_ms()) is None:
+                        raise RuntimeError("harness: batch builder refused one small record")
+                    try:
+                        fut = await p.send_batch(builder, TOPIC, partition=int(call[1]))
+                    except BaseException:
+                        nrec -= 1
+                        raise
+                    futs[rid] = "pending"
+                    watch(rid, fut)
                 elif call == "o":
                     off = 100 + noff
+                    size = 1 + (ovar + nocall) % 3
+                    nocall += 1
                     noff += 1
                     try:
-                        await p.send_offsets_to_transaction({TP(TOPIC, 2): off}, GROUP)
+                        await p.send_offsets_to_transaction(offsets_map(TP, size, off), GROUP)
                     except (AssertionError, env.errors.IllegalOperation):
                         noff -= 1
                         raise
@@ -305,16 +337,17 @@ async def api_case(env, cluster, calls, record):
         await kill_producer(p)
 
 
-def run_api_case(env, calls, fault, what="-", seed=1):
-    """-> (canonical text, details dict);  `what` = how the fault is realised (see choose_fault)"""
+def run_api_case(env, calls, fault, what="-", seed=1, ovar=0):
+    """-> (canonical text, details dict);  `what` = how the fault is realised (see choose_fault);
+    `ovar` shifts the sizes (1, 2, 3 partitions) of the offsets maps of the send_offsets calls"""
     sim = env.sim
-    cluster = sim.SimCluster(nodes=1, topics={TOPIC: 3}, seed=seed)
+    cluster = sim.SimCluster(nodes=1, topics={TOPIC: 3, TOPIC2: 2}, seed=seed)
     if fault is not None:
         cluster.faults.add(make_fault(env, fault, what))
     record = {"res": [], "futs": {}, "state": "?", "clients": ["p0"]}
     hang = None
     try:
-        sim.run(api_case(env, cluster, calls, record), cluster, max_vt=SETTLE * (len(calls) + 2) + 600)
+        sim.run(api_case(env, cluster, calls, record, ovar), cluster, max_vt=SETTLE * (len(calls) + 2) + 600)
     except sim.SimTimeout as ex:
         hang = str(ex)[:200]
     reqs, per_call = split_by_call(canon_requests(env, cluster.trace, set(record["clients"])))
